@@ -46,6 +46,30 @@ def const_design():
   return irgen.comp("ConstTied", sigs, children=children, connects=conns)
 
 
+PKT = ir.S("Pkt16", ("tag", B(8)), ("data", B(64)))
+
+
+def cmp_design():
+  """one-bit signals whose values are RESULTS OF COMPARISONS (Bits1 objects built from Python bools), directly and registered"""
+  sigs = [("in_", "in", B(4), ()), ("b", "in", B(4), ()), ("eq", "out", B(1), ()), ("lt", "out", B(1), ()), ("lt_q", "out", B(1), ()), ("ne_w", "wire", B(1), ())]
+  blocks = [("up_cmp", "comb", [("=", ref("eq"), ("bin", "==", ref("in_"), ref("b"))), ("=", ref("lt"), ("bin", "<", ref("in_"), ref("b"))),
+                                ("=", ref("ne_w"), ("bin", "!=", ref("in_"), c(4, 9)))]),
+            ("ff_cmp", "ff", [("=", ref("lt_q"), ref("lt"))])]
+  return irgen.comp("CmpBits", sigs, blocks=blocks)
+
+
+def wide_value_design():
+  """64-bit and 72-bit (struct) nets stepped between values that are congruent modulo 2^61-1, the modulus of CPython's int hash:
+  a change detector that compares hashes instead of values misses exactly these steps"""
+  sigs = [("in_", "in", B(64), ()), ("pk", "in", PKT, ()), ("r", "out", B(64), ()), ("po", "out", PKT, ()), ("w", "wire", B(64), ())]
+  blocks = [("ff_w", "ff", [("=", ref("r"), ref("in_"))]), ("up_w", "comb", [("=", ref("w"), ("un", "~", ref("in_")))])]
+  return irgen.comp("Wide64", sigs, blocks=blocks, connects=[(ref("po"), ref("pk"))])
+
+
+M61 = (1 << 61) - 1
+WIDE_LETTERS = [(7, (1 << 64) | 7, 0), ((1 << 64) - 1, (1 << 64) | ((1 << 64) - 1), 0), (0, 0, 0), (M61, M61, 0), (1, (3 << 64) | 1, 0), (1 << 61, (3 << 64) | (1 << 61), 1)]
+
+
 def design_list(tier):
   all_ = dict(irgen.all_designs())
   pick = ["chain:T4:w>w:flat", "chain:T4:w>s02:rchild", "chain:Sab:w>a:wchild", "chain:Npc:p>pa:rchild", "chain:SLal:w>l0:flat",
@@ -56,6 +80,8 @@ def design_list(tier):
   missing = [n for n in pick if n not in all_]
   if missing: raise MachineryError(f"design names changed: {missing}")
   out.append(("c16:const-tied", const_design()))
+  out.append(("c16:cmp-bits", cmp_design()))
+  out.append(("c16:w64", wide_value_design()))
   out.append(("c16:wide:100", wide_design(100)))
   out.append(("c16:wide:200", wide_design(200)))
   return out
@@ -88,12 +114,14 @@ def _run_sequence(name, d, seq, acc, tag):
     keys = sorted(ir.instances(d))
     # clk is not part of the IR instance table; every component has one
     read = eval("lambda s: (" + ", ".join(f"int({ir.inst_name(k)}.to_bits())" for k in keys) + ",)")
-    ins = [(n, ir.width(t)) for n, k, t, dims in d["sigs"] if k == "in" and not dims]
+    ins = [(n, ir.width(t), t[0] == "S") for n, k, t, dims in d["sigs"] if k == "in" and not dims]
     samples = []
+    from pymtl3 import Bits
     for (v, aux, rst) in seq:
-      for n, w in ins:
-        val = v if n == "in_" else aux
-        exec(f"top.{n} @= {val & ((1 << w) - 1)}", {"top": top})
+      for n, w, is_struct in ins:
+        val = (v if n == "in_" else aux) & ((1 << w) - 1)
+        if is_struct: exec(f"top.{n} @= top.{n}.__class__.from_bits(Bits({w}, {val}))", {"top": top, "Bits": Bits})
+        else: exec(f"top.{n} @= {val}", {"top": top})
       top.reset @= rst
       top.sim_eval_combinational()
       samples.append(dict(zip(keys, read(top))))
@@ -176,6 +204,8 @@ def _run_sequence(name, d, seq, acc, tag):
 
 def sequences(tier, small=False):
   L = 3 if tier == "quick" else 5
+  if small == "w64":
+    return [list(x) for x in itertools.product(WIDE_LETTERS, repeat=3 if tier == "quick" else 4)]
   if small: L = 2 if tier == "quick" else 3
   letters = [(0, 0, 0), (9, 1, 0), (6, 3, 0), (9, 2, 1)]
   if tier != "quick" and not small: letters.append((15, 0, 0))
@@ -189,7 +219,7 @@ def shards(tier):
 def run_shard(shard, tier, seed):
   acc = Acc()
   name, d = design_list(tier)[shard]
-  seqs = sequences(tier, small=name.startswith("c16:wide"))
+  seqs = sequences(tier, small=("w64" if name == "c16:w64" else name.startswith("c16:wide")))
   for i, seq in enumerate(seqs):
     fails = run_sequence(name, d, seq, acc, f"{os.getpid()}_{i}", perm=i)
     acc.count("executions"); acc.count("transitions", len(seq))
